@@ -159,7 +159,10 @@ def gen_broker_scenario(rng, lazy=False, style=None, malformed=False, limit_orde
             q = float(rng.randint(0, 500))
             ops.append(dict(op="trade_costs", qty=f2b(q), value=f2b(q * rng.choice([1.0, 10.5, 99.0]))))
     ops.append(dict(op="getters"))
-    return dict(dataset=ds, costs=costs, lazy=lazy, ops=ops, extra_syms=["NOPE"])
+    # a lazy client may also not be ready at the first poll (as any client over a real transport): the broker has to
+    # drive the future to completion, not poll it once
+    return dict(dataset=ds, costs=costs, lazy=lazy, yields=(rng.choice([0, 1, 1, 3]) if lazy else 0), ops=ops,
+                extra_syms=["NOPE"])
 
 
 # ------------------------------------------------------------------------------------------------
@@ -419,7 +422,8 @@ def gate_expected(pre, o):
         return "refuse"
     if o["type"] == "MarketSell":
         held = dict((s, F(v)) for s, v in pre["holdings"]).get(o["symbol"])
-        if held is not None and not (shares <= held):
+        # a symbol is held when its position is non-zero (C05: flat positions are absent)
+        if held is not None and held != 0.0 and not (shares <= held):
             return "refuse"
     return "forward"
 
